@@ -67,7 +67,11 @@ mod __verif_kani_std {
         assert!(y.abs() as i64 == if y < 0 { -(y as i64) } else { y as i64 });
         let z: i32 = kani::any();
         assert!(z.saturating_abs() as i64 == if z == i32::MIN { i32::MAX as i64 } else if z < 0 { -(z as i64) } else { z as i64 });
+        assert!(z.wrapping_abs() as i64 == if z == i32::MIN { i32::MIN as i64 } else if z < 0 { -(z as i64) } else { z as i64 });
+        assert!(z.unsigned_abs() as i64 == if z < 0 { -(z as i64) } else { z as i64 });
         let w: i64 = kani::any();
+        assert!(w.wrapping_abs() as i128 == if w == i64::MIN { i64::MIN as i128 } else if w < 0 { -(w as i128) } else { w as i128 });
+        assert!(w.unsigned_abs() as i128 == if w < 0 { -(w as i128) } else { w as i128 });
         assert!(w.saturating_abs() as i128 == if w == i64::MIN { i64::MAX as i128 } else if w < 0 { -(w as i128) } else { w as i128 });
     }
 
